@@ -40,7 +40,8 @@ RULE = ("case = one load under one fault: a fault sequence (enumerated), a kill 
         " Round-5 classes: gzip payloads of 1..3 members."
         " Round-6 classes: the permission bits of the cache entry (group / others may read as far as the umask allows)."
         " Round-7 classes: a 'suspend' kind - a refreshing loader suspended at every line (quick: of the library's file; thorough: also tempfile / shutil / urllib) while a second loader runs to completion with downloading forbidden and with default flags; on a warm cache non-refreshing loaders of the concurrent rounds must not issue requests."
-        " Round-8 classes: every loader process seeds the stdlib and NumPy global generators with the same constant (a reproducible script): names drawn from them repeat between the killed and the later run and between concurrent runs; pauses taken by other means than time.sleep are inconclusive.")
+        " Round-8 classes: every loader process seeds the stdlib and NumPy global generators with the same constant (a reproducible script): names drawn from them repeat between the killed and the later run and between concurrent runs; pauses taken by other means than time.sleep are inconclusive."
+        " Round-9 classes: loaders that run one after the other all see process id 1 and main-thread id 1 (a container restarting); INFO / DEBUG logging in every second loader; a kill point inside the load that is not delivered makes the run inconclusive.")
 REQUIRED_MONITORS = ["c19:kill_delivered", "c19:suspend", "c19:entry_mode", "c19:fault_sequence", "c19:kill_line", "c19:kill_call", "c19:concurrent", "c19:flags", "c19:pairs",
                      "c19:followup_after_kill"]      # c19:kill_syscall / c19:syscall_error need strace (skipped + noted if absent)
 ASSUMPTIONS = ["process crash only (no fsync / power loss claims)", "the fake opener stands for the network"]
